@@ -78,7 +78,11 @@ func (x *Explorer) enter(fr *frame, from, b *ssa.BasicBlock) {
 }
 
 func (x *Explorer) havocLoop(lm *loopMod) {
-	for id, addr := range x.cells {
+	for _, id := range x.liveIDs() {
+		addr := x.cells[id]
+		if addr == nil {
+			continue
+		}
 		if _, live := x.mem[id]; !live {
 			continue
 		}
@@ -399,3 +403,9 @@ func (x *Explorer) loadStruct(addr *Term, st *types.Struct, typ types.Type) *Ter
 
 // ExtractOf builds the term for component i of a tuple-valued term.
 func (x *Explorer) ExtractOf(tup *Term, i int, typ types.Type) *Term { return x.extract(tup, i, typ) }
+
+// OpaqueOf is the term standing for an instruction value that was computed
+// before the explored region.
+func (x *Explorer) OpaqueOf(v ssa.Value) *Term {
+	return x.T.mk(Term{Kind: KOpaque, Ref: v, Type: v.Type()})
+}
